@@ -18,8 +18,11 @@ EXTENDS CellGridOps, SequencesExt, Json, IOUtils
 
 Tr == JsonDeserialize(IOEnv.TRACE_FILE)
 
-VARIABLES tid, l
-tvars == <<tid, l>>
+\* NOTE: state variables must not share a name with any bound variable or parameter of the
+\* constant definitions (Lattice uses l, x, k, ...): TLC then treats those definitions as
+\* state-level and re-evaluates the minimum-image tables at every use (measured: 300x slower).
+VARIABLES trcNo, evNo
+tvars == <<trcNo, evNo>>
 
 InputOf(t) == LET e == Tr[t][1] IN <<e.atoms, e.cs, e.box, e.sel>>
 Zero(S) == {k - 1 : k \in S}           \* 1-based positions -> 0-based indices
@@ -51,10 +54,10 @@ Judge(t, k) ==
             ELSE PrintT(<<"MISMATCH", t, k, b, IF b = 0 THEN {} ELSE exp[b]>>)
     [] OTHER -> PrintT(<<"MISMATCH", t, k, 0, "unknown op">>)
 
-Init == tid \in 1..Len(Tr) /\ l = 0
-Next == /\ l < Len(Tr[tid])
-        /\ l' = l + 1
-        /\ UNCHANGED tid
-        /\ Judge(tid, l + 1)
+Init == trcNo \in 1..Len(Tr) /\ evNo = 0
+Next == /\ evNo < Len(Tr[trcNo])
+        /\ evNo' = evNo + 1
+        /\ UNCHANGED trcNo
+        /\ Judge(trcNo, evNo + 1)
 Spec == Init /\ [][Next]_tvars
 =============================================================================
